@@ -10,6 +10,20 @@ claimed = {
    text="Seeded search over interleavings of attach / stop / stream-end (Close, Unregist, UnregistAll, replacement, idle-close job) and the delivery and conversion goroutines of the real media package; oracle at quiescence: every attached consumer of an ended stream (or a stopped one) was closed, count 0 and never negative, no delivery/conversion goroutine left. Evidence, not proof: a clean batch samples the schedule space.",
    note="Trusted: Go runtime + testing/synctest fake clock, the token scheduler (harness/sim), the placement of schedule points (code between two points is atomic for the search), the simsched stand-in for the cnotch/scheduler engine. Consumer transports are recording stubs at media level."),
 }
+claimed.update({
+ "C01": dict(level="exploration", ref="§5 C01",
+   text="Seeded search over interleavings of one publisher, 1-4 attaching/detaching consumers (RTP with and without GOP replay, FLV) and their delivery goroutines on the real media package; history-based oracle per consumer (must/may sets from invoke/return stamps): published order, byte identity, at most once (replay included), complete after the attach returned. Evidence, not proof.",
+   note="Trusted: Go runtime + synctest, token scheduler, schedule-point placement; transports are recording stubs at media level (service-level leg: see DESIGN.md)."),
+ "C02": dict(level="exploration", ref="§5 C02",
+   text="Frame sequences packetised by an independent RFC 6184/7798 packetiser (single/STAP-A/AP/FU-A/FU, tape-chosen grouping and fragment sizes), H.264/H.265, cache_gop on/off, RTP- and FLV-level joiners attaching at tape-chosen points racing the publisher; oracle: a cut k inside the attach window exists with received = params(k) ++ gop(k) ++ published[k:] per a reference cache computed from the sender's NAL types; FLV header copies re-stamped to the first replayed tag.",
+   note="Trusted: as C01, plus the reference packetiser/classifier (harness/oracle). Parameter sets are never fragmented and precede their key frame in generated streams (stated in evidence)."),
+ "C04": dict(level="exploration", ref="§5 C04",
+   text="1300-4000 packet streams with key-frame spacing from 1 to 400 (and none), a pacing-protected healthy consumer, a consumer blocked inside Consume for tape-chosen phases or for ever, and a panicking consumer; invariants after every publish (backlog <= 1000 + one GOP) and at the end (healthy got everything, drops begin at a key-frame packet and end before one, GOPs published below the limit are delivered whole, panicker detached and closed).",
+   note="Trusted: as C01. The limit 1000 is taken from the property text. Stalls are modelled at the Consumer interface, not on a socket."),
+ "C05": dict(level="exploration", ref="§5 C05",
+   text="2-3 actors issuing register / unregister / lookup / attach / stop over two paths in many spellings with schedule points inside Regist and Unregist; recorded history checked for linearizability with porcupine against a sequential registry model, quiescent Count/Infos/lookup observations, and an end-of-run oracle after 16 simulated minutes for retirement and idle-close (simsched jobs on the fake clock).",
+   note="Trusted: as C01, porcupine v1.3.0, the sequential model in scen/c05.go. Count/Infos are only observed at quiescent points. DELETE /api/v1/streams is exercised at service level (see DESIGN.md)."),
+})
 pending = {
 }
 not_applicable = {
